@@ -130,7 +130,12 @@ class ArrayReadCode(Engine):
             ops = []
             for _ in range(rng.choice([0, 0, 0, 1, 2])):
                 ops.append(rng.choice([{'op': 'append', 'rows': rng.choice([1, 2, 3]), 'vseed': rng.getrandbits(32)},
+                                       {'op': 'append_fail', 'rows': rng.choice([1, 2]), 'vseed': rng.getrandbits(32)},
                                        {'op': 'truncate', 'index': rng.choice([-1, 1, 2])}]))
+            if rng.random() < 0.015:
+                # a long one-dimensional array: the program text may depend on the extent, too
+                shape = [2 ** 20 + rng.randint(1, 9)]
+                ops = []
         return {'engine': 'ArrayReadCode', 'prop': 'C06', 'dtype': dtype, 'shape': shape, 'vseed': rng.getrandbits(32),
                 'pathmode': pathmode, 'ops': ops}
 
@@ -181,17 +186,42 @@ class ArrayReadCode(Engine):
         dtype = np.dtype(sc['dtype'])
         model = make_values(sc['shape'], dtype, sc['vseed'])
         a = darr.asarray(path, model, accessmode='r+')
+        live = a
+        if sc['ops']:
+            for lang in ARRAY_LANGS_ALL:        # ask the long-lived object first, as a user would
+                live.readcode(lang)
+            live.readcodelanguages
         for op in sc['ops']:
             if op['op'] == 'append':
                 extra = make_values([op['rows']] + list(model.shape[1:]), dtype, op['vseed'])
                 a.append(extra)
                 model = np.concatenate([model, extra]).astype(dtype, copy=False)
+            elif op['op'] == 'append_fail':
+                extra = make_values([op['rows']] + list(model.shape[1:]), dtype, op['vseed'])
+
+                def it():
+                    yield extra
+                    raise RuntimeError('iterable failed (injected)')
+                try:
+                    a.iterappend(it())
+                except Exception:
+                    pass
+                model = np.concatenate([model, extra]).astype(dtype, copy=False)
+                st['probes']['state_reached_by_failed_iterappend'] = 1
             elif op['op'] == 'truncate':
                 n = len(model[:op['index']])
                 if 0 <= n < model.shape[0]:
                     darr.truncate_array(a, op['index'])
                     model = model[:op['index']].copy()
         a = darr.Array(path)
+        if sc['ops']:
+            # the code an object hands out describes the array as it is now, not as it was when first asked
+            for lang in ARRAY_LANGS_ALL:
+                if live.readcode(lang) != a.readcode(lang):
+                    raise Viol('readcode.stale', f'{lang}:long_lived_object_differs_from_fresh', f'after {[o["op"] for o in sc["ops"]]}')
+            if tuple(live.readcodelanguages) != tuple(a.readcodelanguages):
+                raise Viol('readcode.stale', 'readcodelanguages:long_lived_object_differs_from_fresh', '')
+            st['probes']['live_vs_fresh_code_compared'] = 1
         numtype = dtype.name
         ndim = model.ndim
         types, ndt = parse_docs_tables()
@@ -365,6 +395,7 @@ class RaggedReadCode(Engine):
         ops = []
         for _ in range(rng.choice([0, 0, 1, 2])):
             ops.append(rng.choice([{'op': 'append', 'rows': rng.choice([0, 1, 2]), 'vseed': rng.getrandbits(32)},
+                                   {'op': 'append_fail', 'rows': rng.choice([1, 2]), 'vseed': rng.getrandbits(32)},
                                    {'op': 'truncate', 'index': -1}]))
         return {'engine': 'RaggedReadCode', 'prop': 'C07', 'dtype': dtype, 'atom': atom, 'lens': lens,
                 'indextype': indextype, 'vseed': rng.getrandbits(32), 'pathmode': rng.choice(['rel', 'base', 'abs']),
@@ -429,15 +460,39 @@ class RaggedReadCode(Engine):
         else:
             ra = darr.create_raggedarray(path, atom=atom, dtype=dtype, indextype=sc['indextype'], accessmode='r+')
             ra.iterappend(L)
+        live = ra
+        if sc['ops']:
+            for lang in RAGGED_LANGS_ALL:
+                live.readcode(lang)
+            live.readcodelanguages
         for op in sc['ops']:
             if op['op'] == 'append':
                 x = make_values((op['rows'],) + atom, dtype, op['vseed'])
                 ra.append(x)
                 L.append(x)
+            elif op['op'] == 'append_fail':
+                x = make_values((op['rows'],) + atom, dtype, op['vseed'])
+
+                def it():
+                    yield x
+                    raise RuntimeError('iterable failed (injected)')
+                try:
+                    ra.iterappend(it())
+                except Exception:
+                    pass
+                L.append(x)
+                st['probes']['state_reached_by_failed_iterappend'] = 1
             elif len(L) > 1:
                 darr.truncate_raggedarray(ra, -1)
                 L = L[:-1]
         ra = darr.RaggedArray(path)
+        if sc['ops']:
+            for lang in RAGGED_LANGS_ALL:
+                if live.readcode(lang) != ra.readcode(lang):
+                    raise Viol('readcode.stale', f'{lang}:long_lived_object_differs_from_fresh', f'after {[o["op"] for o in sc["ops"]]}')
+            if tuple(live.readcodelanguages) != tuple(ra.readcodelanguages):
+                raise Viol('readcode.stale', 'readcodelanguages:long_lived_object_differs_from_fresh', '')
+            st['probes']['live_vs_fresh_code_compared'] = 1
         n = len(L)
         nvalues = sum(x.shape[0] for x in L)
         types, ndt = parse_docs_tables()
